@@ -149,13 +149,16 @@ Definition np_scalar (sh : shape) (ix : index) : bool :=
   forallb is_iint ix && (length ix =? length sh)%nat.
 
 (* ---- the grammar of the property (where "the result axis stays in place" is NumPy's rule):
-   no array at all; or exactly one array (integer or boolean); or several integer arrays — and in the
-   last two cases the integers and arrays form one contiguous block of the index. *)
+   no array at all; or exactly one array (integer or boolean); or several integer arrays of ONE
+   length — and in the last two cases the integers and arrays form one contiguous block of the index. *)
 Fixpoint drop_while {A} (p : A -> bool) (l : list A) : list A :=
   match l with [] => [] | a :: r => if p a then drop_while p r else l end.
 
 Definition is_advlike (e : ientry) : bool := is_iint e || is_iarr e.
 Definition is_ibarr (e : ientry) : bool := match e with IBArr _ => true | _ => false end.
+
+Definition arr_lens (ix : index) : list Z :=
+  flat_map (fun e => match e with IArr l => [Z.of_nat (length l)] | _ => [] end) ix.
 
 Definition in_grammar (ix : index) : bool :=
   let narr := countb is_iarr ix in
@@ -163,4 +166,5 @@ Definition in_grammar (ix : index) : bool :=
   else
     let rest := drop_while is_advlike (drop_while (fun e => negb (is_advlike e)) ix) in
     negb (existsb is_advlike rest)
-    && ((narr =? 1) || negb (existsb is_ibarr ix)).
+    && ((narr =? 1) || negb (existsb is_ibarr ix))
+    && (match arr_lens ix with [] => true | n :: r => forallb (Z.eqb n) r end).
